@@ -549,7 +549,7 @@ def evalFor (W : World) : Nat → Ctx → St → Str → List Attr → List Node
       bindE (st.stack.resolve W.P.cfg vc.2) (fun coll =>
         match coll with
         | some (.list _ xs) => evalForItems W f ctx st tag (loopInstanceAttrs attrs) kids vc.1 xs 0
-        | some (.map _ kvs) => evalForItems W f ctx st tag (loopInstanceAttrs attrs) kids vc.1 (kvs.map (·.2)) 0
+        | some (.map mk kvs) => evalForItems W f ctx st tag (loopInstanceAttrs attrs) kids vc.1 ((Val.iterOrder mk kvs).map (·.2)) 0
         | _ => .ok ([], st)))
 
 def evalForItems (W : World) : Nat → Ctx → St → Str → List Attr → List Node → List Str → List Val → Nat → R (List Node)
